@@ -14,6 +14,19 @@
     fpt   <hex>                      uefi.NewMEFPT(b)                    → ok <count> <mapStart> <fnv of fp.buf> | <fault>
     walk  <z> <dd> <hex> <table>     uefi.Parse, then the walker models  → parse:<fault> | ok validate=<class> extract=<class>
     meter <z> <dd> <hex> <table>     uefi.Parse                          → alloc=<bytes> decompressed=<bytes> (debugging / evidence)
+    asm   <z> <dd> <hex> <table>     uefi.Parse, then (&visitors.Assemble{}).Run(tree) in the same process
+                                     → parse:<fault> | ok <digest of the assembled tree> <fnv of its root buffer> | <fault>
+                                     (<table> also holds what the real *encoders* return: `enc-<codec>:fnv:len=hex|!`;
+                                      a missing entry answers `need-enc <codec> <hex input>`)
+    asmmeter <z> <dd> <hex> <table>  the same run → alloc=<bytes charged by assembleG> (debugging / evidence)
+    steps <z> <dd> <hex> <table>     the step meter of uefi.Parse (TotalSteps*.lean) → steps=<n> blk=<n> dec=<n> class=<ok|fault>
+                                     (debugging / evidence; `steps ≤ 3·(|input|+dec)+17` is a theorem, `blk` is not linear)
+    nvarwalk <pol> <hex>             uefi.NewNVarStore(b) as a tree of nodes, then Validate / Extract / Assemble over it
+                                     → parse:<fault|err> | ok validate=<class> extract=<class> assemble=<class>[:<fnv of the store buffer>]
+    multi <parts> <z> <dd> <hex> <table>   the answers of `parse`, `walk`, `asm` (parts: those words joined by ',') about
+                                     one uefi.Parse, joined by " ; " (the harness asks once per case)
+    asmrun <image-hex> <op>…         one `utk <image> <op>…` run (ops and answer as in FianoModel/Uefi/EditDrv.lean,
+                                     request `run`), every `save` assembled by the Go-semantics model assembleG
 
     <z>     budget of nested decompressions (a tree that hit it answers `zbudget`)
     <dd>    uefi.DisableDecompression (0 | 1)
@@ -26,6 +39,9 @@
 -/
 import Driver.Common
 import FianoModel.Uefi.TotalWalk
+import FianoModel.Uefi.TotalAsmEdit
+import FianoModel.Uefi.EditDrv
+import FianoModel.Uefi.TotalSteps
 
 open Fiano Fiano.Uefi Fiano.Uefi.Total Fiano.GoM Driver
 
@@ -58,12 +74,59 @@ def hooksOf (t : Table) (dd : Bool) : HooksG :=
     disableDecompression := dd
     nvar := nvarHook }
 
+/-- the real encoders' answers come from the same table, keys `enc-<codec>:…` -/
+def tableEncode (t : Table) (codec : String) (b : Bytes) : GoM (Option Bytes) :=
+  match t.lookup (keyOf ("enc-" ++ codec) b) with
+  | some (some out) => do allocG out.length 1; pure (some out)
+  | some none => pure none
+  | none => goPanic s!"need-enc {codec} {toHex b}"
+
+def asmHooksOf (t : Table) (pp : UInt8) : AsmHooksG :=
+  { encoder := fun g =>
+      if g = codecLZMA then some (tableEncode t "LZMA")
+      else if g = codecLZMAX86 then some (tableEncode t "LZMAX86")
+      else if g = codecZLIB then some (tableEncode t "ZLIB")
+      else if g = codecBROTLI then some (tableEncode t "BROTLI")
+      else none
+    nvarAsm := nvAsmHookG pp }
+
 def siteName (s : String) : String := s.replace " " "_"
 
 def faultName : Fault → String
   | .err => "err"
-  | .panic s => if s.startsWith "need-dec " then s else "panic " ++ siteName s
+  | .panic s => if s.startsWith "need-dec " || s.startsWith "need-enc " then s else "panic " ++ siteName s
   | .fuel => "fuel"
+
+/-- status word of the C02 wire format -/
+def statusName : Fault → String
+  | .err => "err"
+  | .panic s => if s.startsWith "log.Fatalf" then "fatal" else "panic"
+  | .fuel => "fuel"
+
+def classOf {α} : Except Fault α → String
+  | .ok _ => "ok"
+  | .error e => faultName e
+
+/-- the `asmrun` request: ParseCLI, uefi.Parse (GoM model, no codecs: the images of the edit generators hold
+    no compressed section and no NVAR store), then the visitors -/
+def asmRun (img : String) (ops : List String) : String :=
+  match EditDrv.parseHex img, ops.mapM EditDrv.parseOp with
+  | some image, some specs =>
+    match cliParse Hooks.none specs {} with
+    | .error e => "cli:" ++ errName e
+    | .ok (ops, st) =>
+      match parseWithG {} 6 image st {} with
+      | .error e => "parse:" ++ statusName e
+      | .ok ((t, st'), _) =>
+        let rec go : List Op → Run → String × Run
+          | [], s => ("ok", s)
+          | op :: ops, s =>
+            match stepEditG (asmHooksOf [] st'.pol) op s {} with
+            | .error e => (statusName e, s)
+            | .ok (s', _) => go ops s'
+        let (status, s) := go ops { tree := t, st := st' }
+        s!"{status} {EditDrv.savedText s.outs}"
+  | _, _ => "bad-op"
 
 def withArgs (z dd hex tbl : String) (k : Nat → HooksG → Bytes → String) : String :=
   match z.toNat?, parseHex hex, parseTable tbl with
@@ -107,11 +170,87 @@ def handle : List String → String
   | ["nvar", pol, hex] =>
     match pol.toNat?, parseHex hex with
     | some p, some b =>
-      match newNvarStoreG (UInt8.ofNat p) b {} with
-      | .ok (some t, _) => "ok " ++ hex16 (Driver.fnv1a t.toUTF8.toList)
-      | .ok (none, _) => "err"
-      | .error e => faultName e
+      -- answered by the structured parser (TotalNvarWalk.lean); the text parser of TotalNvar.lean must agree
+      let old := match newNvarStoreG (UInt8.ofNat p) b {} with
+        | .ok (some t, _) => "ok " ++ hex16 (Driver.fnv1a t.toUTF8.toList)
+        | .ok (none, _) => "err"
+        | .error e => faultName e
+      let new := match newNvarTreeG (UInt8.ofNat p) b {} with
+        | .ok (some t, _) => "ok " ++ hex16 (Driver.fnv1a (nvDumpT t).toUTF8.toList)
+        | .ok (none, _) => "err"
+        | .error e => faultName e
+      if old = new then new else s!"models-differ text={old} tree={new}"
     | _, _ => "bad-op"
+  | ["nvarwalk", pol, hex] =>
+    match pol.toNat?, parseHex hex with
+    | some p, some b =>
+      match newNvarTreeG (UInt8.ofNat p) b {} with
+      | .ok (none, _) => "parse:err"
+      | .error e => "parse:" ++ faultName e
+      | .ok (some t, _) =>
+        let v := classOf (validateNvTreeG t {})
+        let x := classOf (extractNvTreeG t {})
+        let a := match asmNvTreeG (UInt8.ofNat p) t {} with
+          | .ok (t', _) => "ok:" ++ fnvOf t'.s.buf
+          | .error e => faultName e
+        s!"ok validate={v} extract={x} assemble={a}"
+    | _, _ => "bad-op"
+  | ["asm", z, dd, hex, tbl] => withArgs z dd hex tbl fun z h b =>
+    match parseTable tbl with
+    | none => "bad-op"
+    | some t =>
+      match parseWithG h z b {} {} with
+      | .error e => "parse:" ++ faultName e
+      | .ok ((tr, st), _) =>
+        if ((dumpText tr).splitOn zBudgetTag).length > 1 then "zbudget" else
+        match assembleG (asmHooksOf t st.pol) tr st {} with
+        | .ok ((tr', _), _) => s!"ok {digestOf tr'} {fnvOf tr'.buf}"
+        | .error e => faultName e
+  | ["asmmeter", z, dd, hex, tbl] => withArgs z dd hex tbl fun z h b =>
+    match parseTable tbl with
+    | none => "bad-op"
+    | some t =>
+      match parseWithG h z b {} {} with
+      | .error e => "parse:" ++ faultName e
+      | .ok ((tr, st), _) =>
+        match assembleG (asmHooksOf t st.pol) tr st {} with
+        | .ok (_, m) => s!"alloc={m.alloc}"
+        | .error e => faultName e
+  | "asmrun" :: img :: ops => asmRun img ops
+  | ["steps", z, dd, hex, tbl] => withArgs z dd hex tbl fun z h b =>
+    let r := parseWithC h nvarHookCost z b {} {} {}
+    match r.1 with
+    | .error (.panic s) => if s.startsWith "need-dec " then s else
+        s!"steps={r.2.steps} blk={r.2.blk} dec={r.2.dec} class=panic"
+    | .error e => s!"steps={r.2.steps} blk={r.2.blk} dec={r.2.dec} class={faultName e}"
+    | .ok _ => s!"steps={r.2.steps} blk={r.2.blk} dec={r.2.dec} class=ok"
+  | ["multi", parts, z, dd, hex, tbl] => withArgs z dd hex tbl fun z h b =>
+    -- several answers about one uefi.Parse (parsed once): parts ⊆ parse,walk,asm joined by ','
+    match parseTable tbl with
+    | none => "bad-op"
+    | some t =>
+      let ps := parts.splitOn ","
+      if ps.any (fun p => p ≠ "parse" ∧ p ≠ "walk" ∧ p ≠ "asm") ∨ ps.isEmpty then "bad-op" else
+      match parseWithG h z b {} {} with
+      | .error e =>
+        -- a decoder answer is missing: ask for it; otherwise every part reports the parse fault
+        match e with
+        | .panic s => if s.startsWith "need-dec " then s else
+            joinWith " ; " (ps.map fun p => if p = "parse" then faultName e else "parse:" ++ faultName e)
+        | _ => joinWith " ; " (ps.map fun p => if p = "parse" then faultName e else "parse:" ++ faultName e)
+      | .ok ((tr, st), _) =>
+        let answers := ps.map fun p =>
+          if p = "parse" then digestText (dumpTree tr)
+          else if p = "walk" then
+            s!"ok validate={classOf (validateG tr {})} extract={classOf (extractG tr {})}"
+          else
+            if ((dumpText tr).splitOn zBudgetTag).length > 1 then "zbudget" else
+            match assembleG (asmHooksOf t st.pol) tr st {} with
+            | .ok ((tr', _), _) => s!"ok {digestOf tr'} {fnvOf tr'.buf}"
+            | .error e => faultName e
+        match answers.find? (fun a => a.startsWith "need-enc ") with
+        | some a => a
+        | none => joinWith " ; " answers
   | ["nvartext", pol, hex] =>
     match pol.toNat?, parseHex hex with
     | some p, some b =>
